@@ -21,7 +21,7 @@ RULE = ('Seeded ordered pairs (both orders) of dates / naive datetimes / aware d
 ASSUMPTIONS = ['CPython datetime arithmetic', 'vf/oracles/rd_ref.py diff() (self-tested)',
                'aware operands share the same tzinfo object (wall-clock difference)']
 MANIFEST = {
-    'technique': 'runtime differential monitor: real relativedelta(dt1, dt2) vs independent month-shift search + inverse law',
+    'technique': 'runtime differential monitor: real relativedelta(dt1, dt2) vs independent month-shift search + inverse law; plus the same differences from four free-running threads with injected yields (sys.monitoring), compared with the single-threaded outcomes',
     'level_text': 'Tens of thousands of seeded pairs aimed at month-end/leap-day/microsecond/sign boundaries are pushed '
                   'through the real two-date constructor and the real addition; an independent definition of the '
                   'calendar difference decides every result.  Exploration: held on the pairs observed.',
